@@ -661,3 +661,14 @@ func loadOfField(v ssa.Value) (typ, field string, base ssa.Value, ok bool) {
 	}
 	return
 }
+
+// argsOf returns the call's arguments without the receiver (static method calls carry it as Args[0]).
+func argsOf(c ssa.CallInstruction) []ssa.Value {
+	cc := c.Common()
+	if !cc.IsInvoke() {
+		if sc := cc.StaticCallee(); sc != nil && sc.Signature.Recv() != nil && len(cc.Args) > 0 {
+			return cc.Args[1:]
+		}
+	}
+	return cc.Args
+}
